@@ -228,7 +228,8 @@ def run_check(pid, tier):
 
     # 6. broken obligation -> failing-input search -------------------------------------
     searched = False
-    if broken and not failures and hasattr(mod, 'sample'):
+    _known_sigs = {k['signature'] for k in common.load_known().get('findings', []) if k['property'] == pid}
+    if broken and not [f for f in failures if f.get('signature') not in _known_sigs] and hasattr(mod, 'sample'):
         searched = True
         hint = [b for b in broken if b['kind'] == 'correspondence']
         res = mod.sample(ctx, budget=getattr(mod, 'SEARCH_BUDGET', 8.0), hint=hint, broken=broken)
